@@ -133,11 +133,49 @@ Theorem C19_run_never_raises nm next tf fuel h es stop hr :
 Proof. exact (run_never_raises nm next tf fuel h es stop hr). Qed.
 Print Assumptions C19_run_never_raises.
 
+(* ---- registering conditions: the mode argument and its default --------------------------------- *)
+(* addStoppingCondition(condition, mode = 'or'): omitting the mode registers the condition exactly as
+   mode 'or' does (or-combined); any other string registers it as and-combined *)
+Theorem C19_default_mode_is_or (es : list entryR) c l :
+  add_stopping_condition Rops es c l None = add_stopping_condition Rops es c l (Some "or"%string)
+  /\ add_stopping_condition Rops es c l None = es ++ [@mkEntry Rops c true l].
+Proof. exact (add_default_is_or es c l). Qed.
+Print Assumptions C19_default_mode_is_or.
+
+Theorem C19_mode_other_is_and s : s <> "or"%string -> mode_is_or (Some s) = false.
+Proof. exact (mode_other_is_and s). Qed.
+Print Assumptions C19_mode_other_is_and.
+
+Theorem C19_register (es0 : list entryR) regs :
+  register Rops es0 regs =
+    es0 ++ map (fun r => @mkEntry Rops (fst (fst r)) (mode_is_or (snd r)) (snd (fst r))) regs.
+Proof. exact (register_map es0 regs). Qed.
+Print Assumptions C19_register.
+
+(* conditions registered without a mode on an empty list are all or-combined, and for or-combined
+   conditions the stop flag is "ANY of them has been met" (with C19_fires_at_first: such a run ends at the
+   first step at which any one of them holds) *)
+Theorem C19_register_default_all_or (cs : list (condR * latchR)) e :
+  In e (register Rops [] (map (fun cl => (fst cl, snd cl, None)) cs)) -> e_or Rops e = true.
+Proof. exact (register_default_all_or cs e). Qed.
+Print Assumptions C19_register_default_all_or.
+
+Theorem C19_stop_iff_all_or nm H start K (es : list entryR) :
+  (forall e, In e es -> e_or Rops e = true) ->
+  (stop_flag Rops (entries_after nm H start K es) = true <-> exists e, In e es /\ Met nm H start K e).
+Proof. exact (stop_iff_all_or nm H start K es). Qed.
+Print Assumptions C19_stop_iff_all_or.
+
 (* ---- the time-temperature-precipitation calculator ----------------------------------------------- *)
 (* every condition is registered with mode 'and' *)
 Theorem C19_ttp_registers_and cs e : In e (ttp_init Rops cs) -> e_or Rops e = false.
 Proof. exact (ttp_init_all_and cs e). Qed.
 Print Assumptions C19_ttp_registers_and.
+
+(* ... after clearing whatever was registered on the model before *)
+Theorem C19_ttp_clears_previous (es0 : list entryR) cs : ttp_init_on Rops es0 cs = ttp_init Rops cs.
+Proof. exact (ttp_init_on_clears es0 cs). Qed.
+Print Assumptions C19_ttp_clears_previous.
 
 (* reset clears the latches: what is reported for a temperature does not depend on what the same
    condition objects recorded before (strip = a registered condition without its latch) *)
